@@ -83,6 +83,15 @@ def run(name, tier):
             viol = [l for l in r.stdout.splitlines() if l.startswith("VIOLATION")]
             res[pid] = {"exit": r.returncode, "violations": viol[:3]}
     caught = [p for p, v in res.items() if v["exit"] == 1 and v["violations"]]
+    broken = [p for p, v in res.items() if v["exit"] not in (0, 1)]
+    if broken:
+        print(f"{name}: MACHINERY FAILURE in {broken}")
+    if "--record" in sys.argv:  # remember in meta.json which checks report this change, and how
+        m["caught_by"] = {p: [l.split("replay=")[-1].split("/")[-1].replace(".json", "") for l in res[p]["violations"]] for p in caught}
+        m["not_caught_by"] = [p for p in m["checks"] if p not in caught]
+        m["ran"] = f"tools/seeded.py run {name} --tier {tier}: patch applied to a scratch worktree of /repo HEAD, ./check <id> with VERIF_REPO pointing at it"
+        with open(os.path.join(VERIF, "seeded", name, "meta.json"), "w") as f:
+            json.dump(m, f, indent=1)
     print(f"{name}: property={m['property']} tier={tier} caught_by={caught or 'NONE'}")
     for p in caught:
         print("   ", res[p]["violations"][0])
